@@ -15,6 +15,12 @@ CHECKS = {
  "C12": dict(technique="explicit-state BFS of ValueMap's internal states to closure + preemption-bounded schedule enumeration under a cooperative scheduler (sync shim overlay) with brute-force linearizability checking",
              text="Sequential: every reachable canonical internal state of the real ValueMap (3 keys x 2 values) is visited and every operation is compared with a plain map in every state (closure, not a depth bound). Concurrent: every schedule with <= 2-3 preemptions of 2-3 threads x 1-2 operations over 7 initial internal states, scheduling points at each mutex/atomic operation of valuemap.go; each complete call/return history must be linearizable and the quiescent contents must match a linearization.",
              note="Sequentially consistent interleavings at mutex/atomic granularity (Go memory-model reorderings not modelled); Range/Length overlapping writers held to sync.Map's documented weak contract; the shim is trusted to behave like sync when no scheduler is installed.", ref="DESIGN.md §4 C12"),
+ "C16": dict(technique="bounded exhaustive token-string enumeration x full flag cube; oracle on compiled listings (incl. nested bodies) and on every dispatched instruction (VerifStep)",
+             text="Every token string up to length 3 (thorough 4) over the gating alphabet under all 2^4 family settings x statement/NDice/bitwise flags, plus macro-then-probe run sequences: neither the compiled code of the program and of every nested body nor any instruction dispatched at any sub-VM depth may belong to a disabled family unless the input carries the enabling macro; the VM configuration must be unchanged by every run.",
+             note="Inputs longer than the bound and identifiers outside the alphabet are not covered; opcode-to-family table is restated in the check.", ref="DESIGN.md §4 C16"),
+ "C19": dict(technique="bounded exhaustive enumeration of rejected inputs x languages with an independent position/format oracle; cross-VM part by preemption-bounded schedule enumeration at hooked Parse points",
+             text="Every token string up to length 3 (thorough 4) over the error alphabet, also behind multi-line / long-line / multi-byte prefixes, x 3 languages: each rejection's text is parsed and its offset, line, column, quoted line, caret and language are recomputed from the bytes. 2-3 VMs with different languages are run under every schedule (<=2 preemptions) at Parse-entry / before-grammar / shared-selector points and must reproduce their isolated messages.",
+             note="Known findings (grammar/generator level, recorded in known_findings.jsonl): rule-specific messages ignore the language; an error located at a newline is reported as (next line, col 0).", ref="DESIGN.md §4 C19"),
 }
 PENDING = {}
 def main():
